@@ -195,6 +195,8 @@ func (c *conn) Read(p []byte) (int, error) {
 	return n, netErr("read", err)
 }
 
-func (c *conn) SetDeadline(t time.Time) error      { return netErr("set", c.Conn.SetDeadline(t)) }
-func (c *conn) SetReadDeadline(t time.Time) error  { return netErr("read", c.Conn.SetReadDeadline(t)) }
-func (c *conn) SetWriteDeadline(t time.Time) error { return netErr("write", c.Conn.SetWriteDeadline(t)) }
+func (c *conn) SetDeadline(t time.Time) error     { return netErr("set", c.Conn.SetDeadline(t)) }
+func (c *conn) SetReadDeadline(t time.Time) error { return netErr("read", c.Conn.SetReadDeadline(t)) }
+func (c *conn) SetWriteDeadline(t time.Time) error {
+	return netErr("write", c.Conn.SetWriteDeadline(t))
+}
